@@ -67,50 +67,86 @@ def run_scenario(prog, fn, P, tier, max_paths, budget, attribute_all=False):
     return explore.explore_parallel(path, max_paths=max_paths, time_budget=budget, workers=workers)
 
 
+_FD = {}
+
+
+def _featdiff_worker(key):
+    fn, prog, pid, tier, grp = _FD["fn"], _FD["progs"][key], _FD["pid"], _FD["tier"], _FD["grp"]
+    proj = {}
+
+    def path(ex):
+        try:
+            fn(prog, ex, pid, tier)
+        except Violation:
+            pass
+
+    def on_path(ex):
+        pr = getattr(ex, "projection", None)
+        if pr is not None and pr not in proj:
+            proj[pr] = [list(x) for x in ex.full]
+    t0 = time.time()
+    viol, unsup, st = explore.explore(path, max_paths=grp.get("max_paths", 60000), time_budget=grp.get("budget", 200), on_path=on_path, por=False)
+    d = dict(st.__dict__)
+    d["samples"] = []
+    return key, proj, d, unsup, time.time() - t0
+
+
 def run_featdiff_group(pid, grp, tier, out, repo, work):
     """C18: the set of observable behaviours (projection of every explored path, exploration
     WITHOUT partial-order reduction so that the explored sets are comparable) of each feature
     set must equal that of the default build"""
     sets = {}
+    progs = {}
     notes = []
     fn = getattr(scenarios, grp["scenario"])
+    obs = {}
+    # 1. regenerate the MIR of every feature build (sequential: one cargo target directory)
     for feats in grp["feature_sets"]:
         key = ",".join(feats) or "default"
         prog, err, dsecs = load_program(repo, work, feats)
         name = "mirdiff:%s[%s]" % (grp["scenario"], key)
         ob = {"engine": "mir", "name": name, "features": feats, "bounds": grp.get("bounds", ""), "encodes": "set of per-component observable traces == the default build's"}
+        obs[key] = ob
         if prog is None:
             out.inconclusive.append("%s: %s" % (name, err))
             ob["status"] = "inconclusive"
-            out.obligations.append(ob)
             continue
-        proj = {}
-
-        def path(ex, prog=prog):
-            try:
-                fn(prog, ex, pid, tier)
-            except Violation:
-                pass
-
-        def on_path(ex, proj=proj):
-            pr = getattr(ex, "projection", None)
-            if pr is not None and pr not in proj:
-                proj[pr] = [list(x) for x in ex.full]
-        t0 = time.time()
-        viol, unsup, st = explore.explore(path, max_paths=grp.get("max_paths", 60000), time_budget=grp.get("budget", 200), on_path=on_path, por=False)
-        ob.update(paths=st.paths, mir_steps=st.steps, distinct_behaviours=len(proj))
-        notes.append({"engine": "mir", "features": feats, "paths": st.paths, "mir_steps": st.steps, "smt_queries": st.smt_queries, "distinct_behaviours": len(proj), "wall_s": round(time.time() - t0, 1), "mir_bodies": prog.n_bodies})
+        progs[key] = prog
+    # 2. explore the builds side by side (one forked process each; the programs are inherited)
+    _FD["fn"], _FD["progs"], _FD["pid"], _FD["tier"], _FD["grp"] = fn, progs, pid, tier, grp
+    keys = list(progs)
+    import multiprocessing as mp
+    if len(keys) > 1 and int(os.environ.get("VERIF_WORKERS", "14")) > 1:
+        with mp.get_context("fork").Pool(min(len(keys), 8)) as pool:
+            results = pool.map(_featdiff_worker, keys, chunksize=1)
+    else:
+        results = [_featdiff_worker(k) for k in keys]
+    for key, proj, std, unsup, wall in results:
+        ob = obs[key]
+        feats = ob["features"]
+        name = ob["name"]
+        ob.update(paths=std["paths"], mir_steps=std["steps"], distinct_behaviours=len(proj))
+        for kid, e in (std.get("known") or {}).items():
+            rdir = os.path.join(work, "replays", pid)
+            os.makedirs(rdir, exist_ok=True)
+            rp = os.path.join(rdir, "%s_%s.json" % (kid, key.replace(",", "-")))
+            json.dump({"property": pid, "known_finding": kid, "message": e["message"], "features": feats, "witness": jsonable(e["witness"]), "paths_showing_it": e["count"]}, open(rp, "w"), indent=1)
+            ob.setdefault("known_findings", []).append({"id": kid, "paths": e["count"]})
+            if hasattr(out, "known"):
+                out.known.append({"id": kid, "name": name, "count": e["count"], "message": e["message"], "replay": rp})
+        notes.append({"engine": "mir", "features": feats, "paths": std["paths"], "mir_steps": std["steps"], "smt_queries": std["smt_queries"], "distinct_behaviours": len(proj), "wall_s": round(wall, 1), "mir_bodies": progs[key].n_bodies})
         if unsup:
             ob["status"] = "inconclusive"
             out.inconclusive.append("%s: outside the interpreter: %s" % (name, unsup[0][0][:300]))
-        elif st.truncated:
+        elif std["truncated"]:
             ob["status"] = "inconclusive"
-            out.inconclusive.append("%s: exploration budget exhausted after %d paths" % (name, st.paths))
+            out.inconclusive.append("%s: exploration budget exhausted after %d paths" % (name, std["paths"]))
         else:
             sets[key] = proj
             ob["status"] = "discharged"
             ob["sample_trace"] = jsonable(list(proj.keys())[:1])
-        out.obligations.append(ob)
+    for feats in grp["feature_sets"]:
+        out.obligations.append(obs[",".join(feats) or "default"])
     out.notes.extend(notes)
     base = sets.get("default")
     if base is None:
@@ -120,6 +156,22 @@ def run_featdiff_group(pid, grp, tier, out, repo, work):
             continue
         extra = [p for p in proj if p not in base]
         missing = [p for p in base if p not in proj]
+        # a default-build behaviour is excused if the very same schedule, run on the feature
+        # build, ends in a LISTED known finding (the behaviour is lost to that finding)
+        excused = []
+        for p_ in list(missing):
+            ex2 = explore.Exec([(d[0], d[1]) for d in base[p_]])
+            try:
+                fn(progs[key], ex2, pid, tier)
+            except Exception:
+                pass
+            if ex2.known:
+                excused.append(p_)
+                missing.remove(p_)
+        if excused:
+            for ob in out.obligations:
+                if ob["name"].endswith("[%s]" % key):
+                    ob["behaviours_lost_to_known_finding"] = len(excused)
         if extra or missing:
             rdir = os.path.join(work, "replays", pid)
             os.makedirs(rdir, exist_ok=True)
@@ -147,18 +199,25 @@ def run_group(pid, grp, tier, out, repo, work):
     xv_total = [0]
     smt_time = 0.0
     t0 = time.time()
-    for sc in grp["scenarios"]:
+    # the thorough tier = the quick bounds explored completely (must finish) + the deeper bounds
+    # explored as far as the time budget allows (a truncated deep pass is reported as partial
+    # coverage: "held on everything explored", never as a pass of the full deep bound)
+    passes = [(sc, "quick", False) for sc in grp["scenarios"]] if tier == "quick" else \
+             [(sc, t_, t_ == "thorough") for sc in grp["scenarios"] for t_ in ("quick", "thorough")]
+    for sc, tier_run, allow_partial in passes:
+        outer_tier, tier = tier, tier_run
         fn = getattr(scenarios, sc["fn"])
-        name = "mir:%s[%s]" % (sc["fn"], ",".join(feats) or "default")
+        name = "mir:%s[%s]%s" % (sc["fn"], ",".join(feats) or "default", "" if outer_tier == "quick" else ("@quick-bounds" if tier_run == "quick" else "@deep-bounds"))
         ob = {"engine": "mir", "name": name, "features": feats, "bounds": sc.get("bounds", ""), "encodes": sc.get("encodes", "")}
         maxp = sc.get("max_paths", {"quick": 30000, "thorough": 400000})[tier] if isinstance(sc.get("max_paths"), dict) else sc.get("max_paths", 30000 if tier == "quick" else 400000)
-        budget = sc.get("budget", 240 if tier == "quick" else 1800)
+        budget = sc.get("budget", 240 if tier == "quick" else int(os.environ.get("VERIF_DEEP_BUDGET", "300")))
         try:
             viol, unsup, st = run_scenario(prog, fn, pid, tier, maxp, budget, attribute_all=grp.get("attribute_all", False) or sc.get("attribute_all", False))
         except Exception as e:      # an interpreter bug is never a verdict
             out.inconclusive.append("%s: interpreter error %r\n%s" % (name, e, traceback.format_exc()[-600:]))
             ob["status"] = "inconclusive"
             out.obligations.append(ob)
+            tier = outer_tier
             continue
         tot_paths += st.paths
         tot_smt += st.smt_queries
@@ -168,6 +227,16 @@ def run_group(pid, grp, tier, out, repo, work):
         ob["mir_steps"] = st.steps
         ob["smt_queries"] = st.smt_queries
         ob["sample_trace"] = jsonable(st.samples[:1])
+        for kid, e in (getattr(st, "known", None) or {}).items():
+            # a listed known finding was met: keep its witness as a replay file, report, go on
+            rdir = os.path.join(work, "replays", pid)
+            os.makedirs(rdir, exist_ok=True)
+            rp = os.path.join(rdir, "%s_%s_%s.json" % (kid, sc["fn"], "-".join(feats) or "default"))
+            json.dump({"property": e["property"], "known_finding": kid, "message": e["message"], "scenario": sc["fn"], "features": feats, "tier": tier,
+                       "witness": jsonable(e["witness"]), "paths_showing_it": e["count"]}, open(rp, "w"), indent=1)
+            ob.setdefault("known_findings", []).append({"id": kid, "paths": e["count"]})
+            if hasattr(out, "known"):
+                out.known.append({"id": kid, "name": name, "count": e["count"], "message": e["message"], "replay": rp})
         if viol:
             v = viol[0]
             rdir = os.path.join(work, "replays", pid)
@@ -186,6 +255,10 @@ def run_group(pid, grp, tier, out, repo, work):
         elif unsup:
             ob["status"] = "inconclusive"
             out.inconclusive.append("%s: outside the interpreter: %s" % (name, unsup[0][0][:300]))
+        elif st.truncated and allow_partial and st.paths > 0:
+            ob["status"] = "discharged"
+            ob["complete"] = False
+            ob["note"] = "deep bounds: time budget (%ds) reached after %d complete paths, no violation on the explored part; the quick bounds of this scenario were explored completely in the pass before" % (budget, st.paths)
         elif st.truncated:
             ob["status"] = "inconclusive"
             out.inconclusive.append("%s: exploration budget exhausted after %d paths" % (name, st.paths))
@@ -194,7 +267,8 @@ def run_group(pid, grp, tier, out, repo, work):
             out.inconclusive.append("%s: no feasible path (vacuous)" % name)
         else:
             ob["status"] = "discharged"
-            if sc.get("xval", True) and os.environ.get("VERIF_XVAL", "1") != "0":
+            ob["complete"] = True
+            if sc.get("xval", True) and not allow_partial and os.environ.get("VERIF_XVAL", "1") != "0":
                 okn, mism, skipped, why = cross_validate(prog, fn, pid, tier, getattr(st, "sample_paths", [])[:8], work, feats, repo)
                 ob["native_traces_compared"] = okn
                 ob["native_trace_mismatches"] = len(mism)
@@ -209,6 +283,7 @@ def run_group(pid, grp, tier, out, repo, work):
                     os.makedirs(rdir, exist_ok=True)
                     json.dump(mism[0], open(os.path.join(rdir, "xval_mismatch_%s.json" % sc["fn"]), "w"), indent=1)
         out.obligations.append(ob)
+        tier = outer_tier
     out.notes.append({"engine": "mir", "features": feats, "native_traces_compared": xv_total[0], "mir_bodies": prog.n_bodies, "dump_s": round(dsecs, 1), "paths": tot_paths,
                       "smt_queries": tot_smt, "smt_time_s": round(smt_time, 2), "mir_steps": tot_steps, "wall_s": round(time.time() - t0, 1)})
 
